@@ -24,7 +24,12 @@ def gen_consts(v):
         'OLA_SENSOR_ONLY_MODEL OLA_DUMMY_DIMMER_MODEL OLA_DUMMY_MOVING_LIGHT_MODEL OLA_DUMMY_DEVICE_MODEL '
         'PID_PRODUCT_DETAIL_ID_LIST PID_SENSOR_DEFINITION PID_SENSOR_VALUE PID_RECORD_SENSORS PID_IDENTIFY_MODE '
         'PID_DMX_BLOCK_ADDRESS IDENTIFY_MODE_QUIET IDENTIFY_MODE_LOUD PRODUCT_DETAIL_TEST PRODUCT_CATEGORY_DIMMER '
-        'PRODUCT_CATEGORY_FIXTURE_MOVING_YOKE OLA_MANUFACTURER_PID_CODE_VERSION').split()]
+        'PRODUCT_CATEGORY_FIXTURE_MOVING_YOKE OLA_MANUFACTURER_PID_CODE_VERSION OLA_E137_2_MODEL OLA_E137_DIMMER_MODEL '
+        'PID_LIST_INTERFACES PID_INTERFACE_LABEL PID_INTERFACE_HARDWARE_ADDRESS_TYPE1 PID_IPV4_CURRENT_ADDRESS '
+        'PID_IPV4_DEFAULT_ROUTE PID_DNS_NAME_SERVER PID_DNS_HOSTNAME PID_DNS_DOMAIN_NAME NO_DEFAULT_ROUTE '
+        'MIN_RDM_INTERFACE_INDEX MAX_RDM_INTERFACE_INDEX DNS_NAME_SERVER_MAX_INDEX MAX_RDM_HOSTNAME_LENGTH '
+        'MAX_RDM_DOMAIN_NAME_LENGTH DHCP_STATUS_MAX PRODUCT_DETAIL_OTHER PRODUCT_CATEGORY_OTHER').split()]
+    ents += [('ARP_ETHERNET_TYPE', 'ARPHRD_ETHER')]   # what Interface::ARP_ETHERNET_TYPE is defined as (Interface.cpp)
     ents += [(n + '_V', R + n) for n in ('LAMP_ON LAMP_STANDBY LAMP_ON_MODE_DMX LAMP_ON_MODE_ON_AFTER_CAL DISPLAY_INVERT_AUTO '
                                          'POWER_STATE_NORMAL RESET_WARM RESET_COLD DS_ASCII CC_GET').split()]
     ents += [(n, R + 'RDMCommand::' + n) for n in (
@@ -37,7 +42,8 @@ def gen_consts(v):
     if err:
         return err
     return v.gen_consts_cpp(ID, ['ola/Constants.h', 'ola/rdm/RDMCommand.h', 'ola/rdm/RDMCommandSerializer.h',
-                                 'ola/rdm/RDMEnums.h', 'ola/rdm/OpenLightingEnums.h', 'ola/rdm/RDMResponseCodes.h', 'ola/rdm/UID.h'],
+                                 'ola/rdm/RDMEnums.h', 'ola/rdm/OpenLightingEnums.h', 'ola/rdm/RDMResponseCodes.h', 'ola/rdm/UID.h',
+                                 'net/if_arp.h'],
                             ents, os.path.join(v.VERIF, 'props', ID, 'coq', 'Gen.v'))
 
 def gen_tables(v):
@@ -531,6 +537,25 @@ def _field_reqs(rng, pid, cc, sub, n_variants=1):
         out.append(req(OWN, sub, cc, pid, _enc(leaves, vals, rng)))
     return out
 
+def rand_net(rng):
+    """a scripted NetworkManagerInterface: interfaces with distinct indices (some outside the RDM range), masks
+    that are / are not CIDR, names around 32 bytes, host / domain names around their limits, 0-4 name servers"""
+    n = rng.choice([0, 1, 2, 2, 3, 5])
+    idxs = rng.sample([1, 2, 3, 7, 0x7fffffff, 0x10000, 0, 12, 300], n)
+    ifs = []
+    for ix in idxs:
+        name = [rng.choice(b'etholwan0123') for _ in range(rng.choice([0, 1, 4, 31, 32, 33, 40]))]
+        mask = rng.choice([0xffffff00, 0xffff0000, 0xffffffff, 0, 0xff00ff00, 0x80000000, 0xfffffffe, 0x00ffffff])
+        ifs.append('%s.%d.%d.%s.%d.%d' % (hx(name), rng.randrange(1 << 32), mask, hx([rng.randrange(256) for _ in range(6)]),
+                                         ix, rng.choice([1, 1, 1, 0xffff, 6, 772])))
+    host = [rng.choice(b'abcdefgh-') for _ in range(rng.choice([0, 1, 5, 62, 63, 64, 100]))]
+    dom = [rng.choice(b'abc.xyz') for _ in range(rng.choice([0, 7, 230, 231, 232, 255, 256, 300]))]
+    dns = '+'.join(str(rng.randrange(1 << 32)) for _ in range(rng.choice([0, 1, 2, 3, 4]))) or '-'
+    rif = rng.choice(idxs + [0xffffffff, 0xffffffff, 1, 0]) if idxs else rng.choice([0xffffffff, 1])
+    net = '%s~%s~%d~%d~%s~%s' % (hx(host), hx(dom), rif, rng.choice([0, 0x0a0000fe, rng.randrange(1 << 32)]), dns,
+                                 '+'.join(ifs) or '-')
+    return net, idxs
+
 def gen_resp(rng, tier):
     """full-reply correspondence of whole responders with their handler-by-handler models (Responders.v)"""
     quick = tier == 'quick'
@@ -590,6 +615,61 @@ def gen_resp(rng, tier):
                 f[4], f[5], f[6], f[7] = '0', str(SET), str(0xf0), hx([rng.choice([0, 1, 1, 2]), rng.randrange(256)])
             seq[i] = ','.join(f)
         yield 'resp moving %d %s %s %s' % (OWN, strs, init, fin(seq))
+    strs = _label_strings('Dummy Model', 'Dummy RDM Device').rsplit(' ', 1)[0] + ' ' + hx([ord(ch) for ch in 'Dummy Software Version'])
+    murl = _re.search(r'OLA_MANUFACTURER_URL\[\]\s*=\s*"([^"]*)"', open(_repo_file('common/rdm/OpenLightingEnums.cpp')).read()).group(1)
+    dsrc = open(_repo_file('common/rdm/DummyResponder.cpp')).read()
+    purl = _re.search(r'DummyResponder::GetProductURL\(.*?"(http[^"]*)"', dsrc, _re.S).group(1)
+    furl = _re.search(r'DummyResponder::GetFirmwareURL\(.*?"(http[^"]*)"', dsrc, _re.S).group(1)
+    urls = '|'.join(hx([ord(ch) for ch in u]) for u in (murl, purl, furl))
+    for _ in range(80 if quick else 2500):
+        epoch = rng.choice([1700000000, 951782399, rng.randrange(1, 2000000000)])
+        tm = _time.gmtime(epoch)
+        net, idxs = rand_net(rng)
+        ns = rng.choice([3, 3, 0])
+        sens = ','.join(str(rng.choice(I16 + [rng.randrange(65536)])) for _ in range(4 * ns)) or '-'
+        init = '%s,%d,%d,%d,%d,%d,%d,%d|%s|%s|%s' % (hx([ord(ch) for ch in ver]), epoch, tm.tm_year, tm.tm_mon, tm.tm_mday,
+                                                     tm.tm_hour, tm.tm_min, tm.tm_sec, urls, net, sens)
+        seq = walk('dummy', [0, 0, 0, 0, 0, 1, 0xffff], rng.choice([8, 24, 48]))
+        for i in range(len(seq)):
+            k = rng.random()
+            f = seq[i].split(',')
+            if k < 0.1:
+                v = rng.choice(idxs + idxs + [0, 1, 2, 0xffffff00, 0xffffff01, 0xffffffff])
+                f[4], f[5], f[6], f[7] = '0', str(GET), str(rng.choice([0x701, 0x702, 0x705])), hx(list(v.to_bytes(4, 'big')))
+            elif k < 0.2:
+                pid = rng.choice([0x200, 0x201, 0x201, 0x202])
+                f[4], f[5], f[6], f[7] = '0', str(rng.choice([GET, SET])), str(pid), hx([rng.choice([0, 1, 2, 3, 254, 255])])
+            elif k < 0.27:
+                v = rng.choice([0, 1, 231, 100, 4097, 65535])      # 232..4096 is the known finding, kept out of this class
+                f[4], f[5], f[6], f[7] = '0', str(GET), str(0x16), hx([v >> 8, v & 255])
+            elif k < 0.33:
+                f[4], f[5], f[6], f[7] = '0', str(GET), str(0x121), hx([0, rng.choice([0, 1, 3, 4, 5, 6])])
+            elif k < 0.4:
+                f[4], f[5], f[6], f[7] = '0', str(SET), str(0xe0), hx([rng.randrange(6)])
+            elif k < 0.45:
+                f[4], f[5], f[6], f[7] = '0', str(SET), str(0xf0), hx([rng.choice([0, 1, 1, 2]), rng.randrange(256)])
+            elif k < 0.5:
+                v = rng.choice([0x8001, 0x8001, 0x8000, 0x60])
+                f[4], f[5], f[6], f[7] = '0', str(GET), str(0x51), hx([v >> 8, v & 255])
+            f[7] = hx(avoid_known('dummy', 'own', int(f[4]), int(f[5]), int(f[6]), [int(f[7][j:j + 2], 16) for j in range(0, len(f[7]), 2)] if f[7] != '-' else []))
+            seq[i] = ','.join(f)
+        yield 'resp dummy %d %s %s %s' % (OWN, strs, init, fin(seq))
+    strs = _label_strings('OLA Network Device', 'Network Device')
+    for _ in range(60 if quick else 2000):
+        net, idxs = rand_net(rng)
+        seq = walk('network', [0, 0, 0, 0, 0, 1, 0xffff], rng.choice([8, 24, 48]))
+        for i in range(len(seq)):
+            k = rng.random()
+            f = seq[i].split(',')
+            if k < 0.3:      # interface index arguments
+                v = rng.choice(idxs + idxs + [0, 1, 2, 0xffffff00, 0xffffff01, 0xffffffff, 0x80000000])
+                f[4], f[5], f[6], f[7] = '0', str(GET), str(rng.choice([0x701, 0x702, 0x705])), hx(list(v.to_bytes(4, 'big')))
+            elif k < 0.4:
+                f[4], f[5], f[6], f[7] = '0', str(GET), str(0x70b), hx([rng.choice([0, 1, 2, 3, 4, 255])])
+            elif k < 0.6:
+                f[4], f[5], f[6], f[7] = '0', str(GET), str(rng.choice([0x700, 0x70a, 0x70c, 0x70d])), '-'
+            seq[i] = ','.join(f)
+        yield 'resp network %d %s %s %s' % (OWN, strs, net, fin(seq))
     strs = _label_strings('OLA Dimmer', 'Dummy Dimmer')
     for n in (0, 1, 2, 4, 8):
         kind = 'dimmer' if n == 2 else 'dimmer%d' % n
@@ -796,7 +876,7 @@ RULE = ('disp: scripted handler table on the real ResponderOps x PID {placeholde
         'PIDs (thorough: all 65536) x class x sub-device x destination x parameter lengths, in sequences of 40-512 requests with a '
         'snapshot of all GET-able parameters around every SET, every reply judged by the extracted chk_sweep, transaction number '
         'and controller UID different on neighbouring requests; fields: for every GET/SET described in the PID store (/repo/data/rdm) each field in turn at its descriptor range/label values +-1 and the generic width boundaries with the other fields valid; block: DMX_BLOCK_ADDRESS after per-sub-device changes on dimmers with 0/1/2/4/8 sub-devices; nesting: in ~40% of all sweep/ackt/resp sequences (and in a fan-out aimed class) requests are sent from INSIDE the completion callback of an earlier request, up to 4 levels deep, on the same long-lived responder (re-entrancy); the after-snapshot of a SET is then taken at the moment its callback runs; ackt: ack-timer histories with explicit clock steps around 400 ms '
-        '(SET->ACK_TIMER, queued-message delivery, STATUS_GET_LAST_MESSAGE, >255 queued), full replies compared with AckTimer.v; resp: random/field-wise histories on the sensor responder, dimmers with 0/1/2/4/8 sub-devices and the moving light, full replies and final state compared with Responders.v / MovingLight.v. '
+        '(SET->ACK_TIMER, queued-message delivery, STATUS_GET_LAST_MESSAGE, >255 queued), full replies compared with AckTimer.v; resp: random/field-wise histories on the sensor responder, dimmers with 0/1/2/4/8 sub-devices, the moving light, the network responder and the dummy responder (scripted network manager around its limits), full replies and final state compared with Responders.v / MovingLight.v. '
         'non-trivial = helper ACK / one completion carrying a response / a fully conformant sequence containing GETs and SETs; '
         'distinct = distinct model output line')
 ASSUMPTIONS = ['the models are sequential: a request issued from inside a completion callback is modelled as the next request (the callback is the last action of every responder entry point); the harness checks that equivalence on the real code by sending nested requests',
@@ -820,7 +900,11 @@ TRUSTED = ['modelled rather than verified: ResponderOps<T>::HandleRDMRequest/Han
            'random / load averages), DimmerSubDevice, DimmerRootDevice, DimmerResponder composite, MovingLightResponder (time() is '
            'interposed for REAL_TIME_CLOCK); GenTables.v is produced by prop.gen_tables from the .cpp sources (regex) with enum values '
            'from the compiler',
-           'FrequencyModulationSetting descriptions and the network helpers are not modelled (swept only); slot-table theorems assume '
+           'Network.v / Dummy.v: the network helpers are modelled over an abstract network manager (interfaces, route, names, DNS as '
+           'configuration; the harness installs a FakeNetworkManager built from the same configuration, also in the DummyResponder), '
+           'std::sort of the interfaces is modelled as an insertion sort (distinct indices in the generated configurations), theorems '
+           'assume at most 38 interfaces and URL strings of at most 231 bytes',
+           'FrequencyModulationSetting descriptions are not modelled (swept only); slot-table theorems assume '
            'the table fits one response (<=46 slots for SLOT_INFO, <=77 for DEFAULT_SLOT_VALUE) and that the active personality exists']
 LEVEL_TEXT = ('PARTIAL by design. Coq theorems, for all requests and EVERY handler behaviour, about an executable model of '
               'ResponderOps dispatch (completion exactly once; broadcast/vendorcast: status only, no response; foreign UID: '
@@ -829,16 +913,17 @@ LEVEL_TEXT = ('PARTIAL by design. Coq theorems, for all requests and EVERY handl
               'of the SubDeviceDispatcher fan-out (exactly one completion, tracker never used after deletion, first sub-device\'s '
               'reply, resulting state) and of the generic ResponderHelper parsers (never read outside the parameter data, ACK or NACK '
               'with a legal reason for every length, state unchanged on NACK), all tied to the C++ by differential correspondence. '
-              'For FOUR of the eight responders the handler hypothesis is discharged: AckTimerResponder (c13_acktimer, queue/timer '
-              'state machine, every history), SensorResponder (c13_sensor), the dimmer\'s DimmerSubDevice and DimmerRootDevice '
-              '(c13_dimmer_sub, c13_dimmer_root; the composite DimmerResponder only through c13_fanout*) and MovingLightResponder '
-              '(c13_moving_light): every handler is modelled as the ResponderHelper call it is, the handler tables are checked against '
-              'tables regenerated from the PARAM_HANDLERS arrays (c13_tables), the moving light\'s personalities/slots are regenerated '
-              'from its source, and full replies + final state are compared with the real responders (resp/ackt classes). '
-              'DummyResponder, AdvancedDimmerResponder and NetworkResponder handler bodies (~85) are NOT modelled: for them the '
-              'evidence is a sweep in which every real reply (with before/after snapshots of all GET-able parameters) is judged by '
-              'the extracted instance checker chk_13, proved to imply the property text (c13_chk_sound) -- testing judged by a proved '
-              'checker, not a theorem. '
+              'For SEVEN of the eight responder classes the handler hypothesis is discharged, each handler modelled as the '
+              'ResponderHelper call it is: AckTimerResponder (c13_acktimer), SensorResponder (c13_sensor), DimmerSubDevice and '
+              'DimmerRootDevice (c13_dimmer_sub, c13_dimmer_root; the composite DimmerResponder: c13_dimmer_once + c13_fanout*), '
+              'MovingLightResponder (c13_moving_light), NetworkResponder (c13_network, incl. the eight E1.37-2 network helpers over an '
+              'abstract NetworkManagerInterface) and DummyResponder (c13_dummy; excludes exactly the known finding GET TEST_DATA '
+              '232..4096). Handler tables are checked against tables regenerated from the PARAM_HANDLERS arrays (c13_tables), '
+              'personalities/slots of the moving light and the dummy are regenerated from their sources, and full replies + final state '
+              'are compared with the real responders (resp/ackt classes; scripted sensors, network manager and clock). '
+              'AdvancedDimmerResponder\'s handler bodies (33) are NOT modelled: for it the evidence is a sweep in which every real reply '
+              '(with before/after snapshots of all GET-able parameters, field-wise boundary payloads) is judged by the extracted instance '
+              'checker chk_13, proved to imply the property text (c13_chk_sound) -- testing judged by a proved checker, not a theorem. '
               'Two known findings are excluded narrowly (GET TEST_DATA > 231 bytes, refuted/partial theorems; mixed ACK/NACK of a SET '
               'fanned out to all sub-devices, c13_fanout_mixed_refuted / c13_fanout_partial).')
 LEVEL_NOTE = ('Trusted: Coq kernel, extraction (ExtrOcamlBasic), OCaml/C++ glue incl. the pipe to the checker service, generator '
